@@ -68,6 +68,7 @@ func init() {
 			a.keyMaterialGate("G.key-material", a.MustFn("(*Conversation).processDataMessageWithRawErrors"), full)
 			a.unsignedCacheWriters("W.unsigned-cache")
 			a.plaintextFlagTable("P.unencrypted-flag")
+			a.tlvLoopComplete("S.tlv-loop")
 			a.checkSignPolarity()
 			a.pickKeysTable()
 		})
@@ -423,4 +424,52 @@ func (a *An) plaintextFlagTable(rule string) {
 			}
 		}
 	}
+}
+
+// tlvLoopComplete: processTLVs handles every TLV of an authenticated message: the loop over the TLVs is
+// left only when the range is exhausted or a handler reported an error.
+func (a *An) tlvLoopComplete(rule string) {
+	fn := a.MustFn("(*Conversation).processTLVs")
+	if fn == nil {
+		return
+	}
+	loops := naturalLoops(fn)
+	var dyn ssa.CallInstruction
+	for _, b := range fn.Blocks {
+		for _, in := range b.Instrs {
+			if call, ok := in.(*ssa.Call); ok && a.F.callName(call) == "dyn" {
+				dyn = call
+			}
+		}
+	}
+	if dyn == nil || len(loops) == 0 {
+		a.R.Viol(rule, "processTLVs|loop", "processTLVs dispatches each TLV to its handler inside a loop", a.C.Pos(fn.Pos()), "handler dispatch or loop not found")
+		return
+	}
+	l := loopContaining(loops, dyn)
+	if l == nil {
+		a.R.Viol(rule, "processTLVs|loop", "the handler dispatch is inside the loop over the TLVs", a.C.InstrPos(dyn), "dispatch outside any loop")
+		return
+	}
+	n := 0
+	for _, ex := range l.Exits() {
+		n++
+		ok := false
+		why := ""
+		if ex.From == l.Header {
+			ok = true // range exhausted
+		} else if ret, isRet := ex.To.Instrs[len(ex.To.Instrs)-1].(*ssa.Return); isRet && len(ex.To.Instrs) <= 2 {
+			ev := ret.Results[1]
+			if sc := statusCall(ev); sc != nil && ssa.Instruction(sc) == dyn.(ssa.Instruction) && a.F.LocalAt(ret).Has("@fail:"+instKey(sc)) {
+				ok = true // a handler failed: the rest of the block is considered corrupt
+			} else {
+				why = "returns " + a.C.Term(ev)
+			}
+		} else {
+			why = "leaves the loop from block " + ex.From.Comment
+		}
+		a.R.Check(ok, rule, "processTLVs|exit#"+string(rune('0'+n)), "the TLV loop ends only when all TLVs were handled or a handler failed", a.C.InstrPos(ex.From.Instrs[len(ex.From.Instrs)-1]),
+			"the loop over the TLVs of a message can be left early ("+why+"): TLVs after that point (e.g. a disconnect) are never acted upon")
+	}
+	a.R.Floor(rule, 2)
 }
